@@ -414,6 +414,27 @@ def body(ctx):
             for v, lo, hi in itertools.product((1, 2, 3), repeat=3):
                 want = lo if v < lo else hi if hi < v else v
                 lines.append("static_assert(clamp(au::feet(%s{%d}), au::inches(%s{%d}), (au::yards / au::mag<3>())(%s{%d})) == au::inches(%s{%d}), \"clamp, mixed units\");" % (r, v, r, lo * 12, r, hi, r, want * 12))
+    # mixed REPS: the result has the common rep (a floating bound is never squeezed into an integral
+    # value rep), over every ordering, same and mixed units, for min / max / clamp
+    ml = []
+    halves = ((1, "0.5"), (3, "1.5"), (5, "2.5"))  # (twice the value, literal)
+    for ri, rf in (("int", "double"), ("int16_t", "float"), ("uint8_t", "double")):
+        for v in (1, 2, 3):
+            for (lo2, los) in halves:
+                for (hi2, his) in halves:
+                    want2 = lo2 if 2 * v < lo2 else hi2 if hi2 < 2 * v else 2 * v
+                    ml.append("static_assert(clamp(au::meters(%s{%d}), au::meters(%s{%s}), au::meters(%s{%s})) == au::meters(%s{%s}), \"clamp, integral value between floating bounds\");"
+                              % (ri, v, rf, los, rf, his, rf, "%d.%d" % (want2 // 2, 5 * (want2 % 2))))
+        ml.append("static_assert(std::is_same<decltype(clamp(au::meters(%s{1}), au::meters(%s{1}), au::meters(%s{2}))), au::Quantity<au::Meters, std::common_type_t<%s, %s>>>::value, \"clamp result rep\");" % (ri, rf, rf, ri, rf))
+        ml.append("static_assert(std::is_same<decltype(clamp(au::meters(%s{1}), au::meters(%s{1}), au::meters(%s{2}))), au::Quantity<au::Meters, std::common_type_t<%s, %s>>>::value, \"clamp result rep (floating value, integral bounds)\");" % (rf, ri, ri, ri, rf))
+        ml.append("static_assert(std::is_same<decltype(clamp(au::feet(%s{1}), au::inches(%s{1}), au::yards(%s{2}))), au::Quantity<au::CommonUnitT<au::Feet, au::Inches, au::Yards>, std::common_type_t<%s, %s>>>::value, \"clamp result type, mixed units and reps\");" % (ri, rf, rf, ri, rf))
+        ml.append("static_assert(clamp(au::feet(%s{1}), au::inches(%s{13.5}), au::yards(%s{2})) == au::inches(%s{13.5}) && clamp(au::feet(%s{7}), au::inches(%s{13.5}), au::inches(%s{70.5})) == au::inches(%s{70.5}), \"clamp value, mixed units and reps\");" % (ri, rf, rf, rf, ri, rf, rf, rf))
+        for fn, pick in (("min", "0.5"), ("max", "1")):
+            ml.append("static_assert(%s(au::meters(%s{1}), au::meters(%s{0.5})) == au::meters(%s{%s}) && %s(au::meters(%s{0.5}), au::meters(%s{1})) == au::meters(%s{%s}), \"%s, mixed reps\");"
+                      % (fn, ri, rf, rf, pick, fn, rf, ri, rf, pick, fn))
+            ml.append("static_assert(std::is_same<decltype(%s(au::meters(%s{1}), au::meters(%s{0.5}))), au::Quantity<au::Meters, std::common_type_t<%s, %s>>>::value && std::is_same<decltype(%s(au::feet(%s{1}), au::inches(%s{0.5}))), au::Quantity<au::Inches, std::common_type_t<%s, %s>>>::value, \"%s result type, mixed reps\");"
+                      % (fn, ri, rf, ri, rf, fn, ri, rf, ri, rf, fn))
+    items.append(witness.Item("w:minmaxclamp-mixed-reps", "\n".join(ml), "accept", None, dict(desc="min / max / clamp with an integral and a floating rep: common rep, exact values over every ordering")))
     items.append(witness.Item("w:clamp-orderings", "\n".join(lines), "accept", None, dict(desc="clamp over every ordering of (value, low, high), same and mixed units")))
     results, stats = witness.judge(ctx, items, configs, prelude=prelude, batch=80, tag="c15")
     nbad = witness.report_mismatches(ctx, items, results, prelude=prelude)
@@ -422,7 +443,7 @@ def body(ctx):
         obligations=tot[0] + len(items) + nrt, discharged=tot[1] + len(items) - nbad + nrt, checker_cmd="bin/check C15 --tier %s" % ctx.tier,
         trusted_base=["clang 14 lowering to IR; libm / llvm intrinsics as uninterpreted functions", "vlib/dag.py real-affine forms", "clang/g++ front ends for witnesses"],
         evaluations=tot[0] + len(items), distinct_nontrivial=tot[0] + len(items),
-        rule="rounding: one IR wrapper per (ratio incl. pi/180, source rep, round|floor|ceil, in|as, unit-only or <OutputRep>, quantity|point): the value is stdfn in the type std::round works in, applied to an affine floating conversion of x whose coefficient is the model ratio (and offset the model displacement) within the rounding of its constants, computed in that type; inversion: witness pairs over SI-prefixed (time, frequency) pairs x 6 reps, DAG cast(K / x) with K the exact constant, arithmetic round trip n -> K/(K/n) for n = 1..1000 on every accepted K; trig / hypot / fmod / remainder / arctan2: libm node applied to the values in radians / the common unit; min, max, clamp, abs, copysign, isnan: DAG equality with the std function compiled alongside",
+        rule="rounding: one IR wrapper per (ratio incl. pi/180, source rep, round|floor|ceil, in|as, unit-only or <OutputRep>, quantity|point): the value is stdfn in the type std::round works in, applied to an affine floating conversion of x whose coefficient is the model ratio (and offset the model displacement) within the rounding of its constants, computed in that type; inversion: witness pairs over SI-prefixed (time, frequency) pairs x 6 reps, DAG cast(K / x) with K the exact constant, arithmetic round trip n -> K/(K/n) for n = 1..1000 on every accepted K; trig / hypot / fmod / remainder / arctan2: libm node applied to the values in radians / the common unit; min, max, clamp, abs, copysign, isnan: DAG equality with the std function compiled alongside; clamp over every ordering, and min / max / clamp with one integral and one floating rep (result type has the common rep, exact values over every ordering of an integral value between non-whole floating bounds)",
         samples=[dict(rounding=str(combos[0])), dict(inverse_Ks=sorted(Ks)[:6])], exhaustive=False,
         rounding_wrappers=nround, inverse_witnesses=sum(1 for i in items if i.key.startswith("inv")), inverse_roundtrips=nrt, accepted_K=len(Ks),
         w_items=len(items), w_mismatches=nbad, configs=[c.name for c in configs], engine_stats=stats,
